@@ -24,6 +24,17 @@ func genC12(ctx *Ctx, i int) *Input {
 		s, _ := grammarCase(ctx, i/2, true)
 		in.Spec = s
 		in.Extra = map[string]any{"expect": "usable"}
+		if in.Variant.Lang == "ts" && r.Chance(1, 3) {
+			// a token spelled like a Go keyword is an ordinary constant name in TypeScript
+			s = s.Clone()
+			for ti := range s.Terms {
+				if s.Terms[ti].Name != "" {
+					s.Terms[ti].Name = []string{"range", "map", "select", "chan", "defer", "goto", "func", "go"}[r.Intn(8)]
+					break
+				}
+			}
+			in.Spec = s
+		}
 	} else {
 		base := mixedSpec(ctx, r.Sub("base"))
 		kind := wl.UnusableKinds[(i/2)%len(wl.UnusableKinds)]
